@@ -214,4 +214,10 @@ def gen_stores(rng, k: int, indexed: bool, extra: bool = False, max_n: int = 4, 
             adds.append({'op': 'add', 'tag': tag, 'npts': int(rng.choice([5, 12, 40])), 'extra': extra, 'fid': fid})
             tag += 1
         stores.append({'name': (names[j] if names else f'in{j}.nc'), 'adds': adds, 'extra': extra, 'indexed': indexed})
+    if not names:
+        # file names in an order that is NOT their sorted order (the order given to merge is what counts)
+        pool = ['west', 'east', 'north', 'south', 'zulu', 'alpha', 'mike', 'p10', 'p9', 'p8', 'B', 'a']
+        pick = [str(x) for x in rng.permutation(pool)[:k]]
+        for st, nm in zip(stores, pick):
+            st['name'] = nm + '.nc'
     return stores
